@@ -8,6 +8,7 @@ Descriptor (plain dict, picklable):
                 ["submit", key, script]          script = list of per-attempt behaviours (UserFn steps)
                 ["cancel", key] ["result", key, timeout] ["addcb", key, cbkind] ["shutdown", wait] ["sleep", d]
                 ["notify"]                      (poll layer)
+                ["setev", gate] ["waitev", gate] (scenario gates shared with UserFn steps ('waitev', gate) / ('setev', gate))
   tail      : virtual seconds main sleeps after the clients finished (lets timers fire)
 """
 from concurrent.futures import Future
@@ -311,6 +312,12 @@ def run_clients(desc, s, w, ctx):
                     do_shutdown(op[1], tid)
                 elif k == "sleep":
                     s.sleep(op[1])
+                elif k == "setev":
+                    s.yield_point("api")
+                    w.gate(op[1]).set()
+                elif k == "waitev":
+                    s.yield_point("api")
+                    w.gate(op[1]).wait()
                 elif k == "notify":
                     p = getattr(ctx, "poll", None)
                     if p is not None:
